@@ -216,9 +216,7 @@ func (p *AppTimeReqPayload) UnmarshalBinary(data []byte) error {
 
 	p.DeviceTime = binary.LittleEndian.Uint32(data[0:4])
 	p.Param.TokenReq = uint8(data[4] & 0x0f)
-	if data[4]&(1<<4) != 0 {
-		p.Param.AnsRequired = true
-	}
+	p.Param.AnsRequired = data[4]&(1<<4) != 0
 
 	return nil
 }
@@ -326,9 +324,7 @@ func (p *DeviceAppTimePeriodicityAnsPayload) UnmarshalBinary(data []byte) error 
 	if len(data) < p.Size() {
 		return fmt.Errorf("lorawan/applayer/clocksync: %d bytes are expected", p.Size())
 	}
-	if data[0]&1 != 0 {
-		p.Status.NotSupported = true
-	}
+	p.Status.NotSupported = data[0]&1 != 0
 	p.Time = binary.LittleEndian.Uint32(data[1:5])
 	return nil
 }
